@@ -7,6 +7,7 @@ package http
 
 import (
 	"bytes"
+	"errors"
 	"io"
 	nethttp "net/http"
 	"time"
@@ -21,12 +22,33 @@ func init() {
 
 // vLoop hands the client's request to the server's handler in-process (what the
 // network and net/http do between the two is not modelled).
-type vLoop struct{ h nethttp.Handler }
+type vLoop struct {
+	h nethttp.Handler
+	// faults: requests that may still fail — before the server sees them, or
+	// after it processed them with the answer lost on the way back
+	v      *verifrt.T
+	faults int
+}
 
 func (l *vLoop) RoundTrip(r *nethttp.Request) (*nethttp.Response, error) {
+	fault := 0
+	if l.faults > 0 {
+		if fault = l.v.Choose("request-fails", 3); fault != 0 {
+			l.faults--
+		}
+	}
+	if fault == 1 {
+		if r.Body != nil {
+			r.Body.Close()
+		}
+		return nil, errors.New("connection refused")
+	}
 	w := &vWriter{}
 	sr := &nethttp.Request{Method: r.Method, URL: r.URL, Header: r.Header, Body: r.Body, ContentLength: -1, TransferEncoding: []string{"chunked"}}
 	l.h.ServeHTTP(w, sr)
+	if fault == 2 {
+		return nil, errors.New("connection reset while waiting for the answer")
+	}
 	st := w.status
 	if st == 0 {
 		st = 200
